@@ -31,7 +31,7 @@ def _tattr(j, role, flags, rci, cnt, s):
                 units=b'm' if has_u else None, value=_val(eff_rc, eff_count, s) if has_v else None)
 
 
-def _comp(kind, flags, rci, cnt, s, tattr):
+def _comp(kind, flags, rci, cnt, s, tattr, units=b'ft'):
     if kind == 0:
         return None
     if kind == 1:
@@ -42,7 +42,7 @@ def _comp(kind, flags, rci, cnt, s, tattr):
     t_count = tattr['count'] if tattr['count'] is not None else 1
     eff_rc = rc if has_r else t_rc
     eff_count = cnt if has_c else t_count
-    return dict(role='ATTRIB', count=cnt if has_c else None, rc=rc if has_r else None, units=b'ft' if has_u else None,
+    return dict(role='ATTRIB', count=cnt if has_c else None, rc=rc if has_r else None, units=units if has_u else None,
                 value=_val(eff_rc, eff_count, s) if has_v else None)
 
 
@@ -66,7 +66,8 @@ def _table(named, inv0, tf0, tr0, tc0, inv1, tf1, tr1, tc1, nobj, k0, f0, r0, c0
         comps = []
         specs = [(k0, f0, r0, c0), (k1, f1, r1, c1)]
         for a, (k, f, r, c) in zip(variable, specs):
-            comps.append(_comp(k, f, r, c, s + 11 * n, a))
+            # the second object states EMPTY units explicitly (a legal override of non-empty template units: RP66V1 3.2.2.1)
+            comps.append(_comp(k, f, r, c, s + 11 * n, a, b'ft' if n == 0 else b''))
         # components after an omitted one are omitted too (trailing omission only)
         seen_none = False
         for i in range(len(comps)):
